@@ -3,18 +3,23 @@ from driver import Unit
 
 def dur_units():
     us = []
+    # -O0 + ASan/UBSan compiles ~2.5x faster than -O1 for these instantiation-heavy units (same checks, no folding);
+    # thorough adds the optimised builds: plain -O2 everywhere, ASan -O1 for the i64/i64 table and the nano x 5/7 cells
     quick = ["asanO0-cc"]
-    thorough = ["asanO0-cc", "asan-cc", "plain-cc"]
+    thorough = ["asanO0-cc", "plain-cc"]
+    thorough_r0 = ["asanO0-cc", "asan-cc", "plain-cc"]
     groups3 = [(0, 2), (3, 5), (6, 7), (8, 9)]          # one cell per pair
     groups2 = [(0, 1), (2, 3), (4, 5), (6, 7), (8, 9)]  # two / three cells per pair
     for rs in (0, 1, 2, 3):
         for lo, hi in (groups3 if rs in (0, 1) else groups2):
+            # mixed i32/i64 representations (rs 2, two cells per pair, ~40 % of the compile cost): quick tier builds one From group only
+            q = quick if (rs != 2 or (lo, hi) == (4, 5)) else []
             us.append(Unit(f"C12_dur_f{lo}_{hi}_r{rs}", "harness/C12_dur.cpp",
                            defs=[f"-DC12_FROM_LO={lo}", f"-DC12_FROM_HI={hi}", f"-DC12_REPSET={rs}"],
-                           flavours={"quick": quick, "thorough": thorough}, shards={"quick": 2, "thorough": 8}))
+                           flavours={"quick": q, "thorough": thorough_r0 if rs == 0 else thorough}, shards={"quick": 2, "thorough": 8}))
     # nano x ratio<5,7>: needs etl::lcm without the m*n overflow; its own unit so that it cannot take the others down
     us.append(Unit("C12_dur_x", "harness/C12_dur.cpp", defs=["-DC12_X=1"],
-                   flavours={"quick": quick, "thorough": thorough}, shards={"quick": 2, "thorough": 8}))
+                   flavours={"quick": quick, "thorough": thorough_r0}, shards={"quick": 2, "thorough": 8}))
     us.append(Unit("C12_misc", "harness/C12_misc.cpp", flavours={"quick": ["asan-cc"], "thorough": ["asan-cc", "plain-cc"]},
                    shards={"quick": 2, "thorough": 4}))
     us.append(Unit("C12_tp", "harness/C12_tp.cpp", flavours={"quick": ["asan-cc"], "thorough": ["asan-cc", "plain-cc"]},
